@@ -624,6 +624,18 @@ def scan_assumptions(text):
     return found
 
 
+def unit_features(template_text, base):
+    """feature set for one unit: the property's set, adjusted by a `//# features -x +y` line in the template"""
+    feats = set(base) if base is not None else set(DEFAULT_FEATURES)
+    for m in re.finditer(r"(?m)^//# features (.*)$", template_text):
+        for tok in m.group(1).split():
+            if tok.startswith("-"):
+                feats.discard(tok[1:])
+            elif tok.startswith("+"):
+                feats.add(tok[1:])
+    return sorted(feats)
+
+
 def scan_standins(template_text):
     """types written by hand in a unit template (abstract stand-ins for types the extracted code mentions)"""
     mask = code_mask(template_text)
